@@ -129,6 +129,36 @@ def run_c15(ctx):
     for sig, cand in list(found_input.items()) + [(k, v) for k, v in pending.items() if k not in found_input]:
         ctx.finding(*cand)
     same_named_inline(ctx)
+    # the dissector Wireshark loads is the FILE `compile -l` leaves: written over an earlier, longer dissector of the same name it
+    # must be exactly the text judged above
+    from common import build_harness, scratch, rm
+    import checks_front
+    _h, cbin = build_harness()
+    d = scratch()
+    try:
+        done = 0
+        for t, g in zip(texts, gens):
+            run = (g.get("runs") or [{}])[0]
+            if "files" not in run or done >= (3 if ctx.tier == "quick" else 30):
+                continue
+            done += 1
+            f = os.path.join(d, "p.dsl")
+            with open(f, "w") as fh:
+                fh.write(t)
+            o = os.path.join(d, "lua")
+            rm(o)
+            os.makedirs(o)
+            for rel, body in run["files"].items():
+                with open(os.path.join(o, rel), "w", encoding="utf-8", newline="") as fh:
+                    fh.write(body + "\n-- an earlier, longer dissector\n" + body)
+            rc, _, _ = checks_front.cli(cbin, ["compile", "-f", f, "-l", o], d)
+            ctx.count("dissector_files_checked")
+            bad = [rel for rel, body in run["files"].items() if open(os.path.join(o, rel), encoding="utf-8", newline="").read() != body]
+            if rc != 0 or bad:
+                ctx.finding("lua/file-on-disk", "the dissector file left by `compile -l` over an earlier, longer one is not the generated dissector (exit %d)" % rc,
+                            {"dsl": t, "files": bad})
+    finally:
+        rm(d)
     if ctx.broken and not ctx.violations:
         ctx.finding("obligation/C15", "; ".join(ctx.broken)[:500], {"broken": ctx.broken}, False)
     ctx.cov.update({"disagreements_checked": ctx.cov.get("reasons_examined", 0), "dsl_texts": len(texts),
